@@ -101,7 +101,7 @@ def check_case(chk: Check, plan: Plan, case: dict, seed: int):
                 continue
             for pre in plan.prefixes:
                 sep = "\\" if "\\" in pre else "/"
-                for variant in (pre + nm, pre + " " + nm + "  ", pre + nm + sep):
+                for variant in (pre + nm, pre + " " + nm + "  ", pre + nm + sep, pre + nm + sep + "  ", "  " + pre + nm + " " + sep + " \t"):
                     o, e = safe_ls(image, variant)
                     if e:
                         problems.append(f"ls {variant!r} raised {e}")
@@ -154,7 +154,10 @@ def run(chk: Check):
         res = chk.run_model(naming.model(pool, k, plan.is_dir, plan.kind, no_combine=plan.nocomb),
                             label=f"design: {plan.label}, <= {k} of {len(plan.pool)} names", timeout_s=3000)
         stride = max(1, len(res.cases) // budget)
-        for i, c in enumerate(res.cases[(chk.seed + 5) % stride::stride]):
+        picked = res.cases[(chk.seed + 5) % stride::stride]
+        if k == 4 and len(pool) <= 5:        # targeted pool: every 4-sibling sequence with two duplicate groups, unstrided
+            picked = [c for c in res.cases if len(c["names"]) == 4 and naming.collision_rich([naming.S(n) for n in c["names"]])]
+        for i, c in enumerate(picked):
             check_case(chk, plan, c, chk.seed + i)
     chk.exhaustive = True
     chk.sample({"names": ["A:", "A", ":A"], "printed": ["A:", "A", "A (2)"]})
